@@ -37,6 +37,8 @@ func runC05(c *Ctx) {
 	checkGeneratedSkipped(c, "R05f")
 	c.Rule("R05g", ruleTextSkipFKsMonotone, 1)
 	checkSkipFKsMonotone(c, "R05g")
+	c.Rule("R05j", ruleTextApplyStops, 1)
+	checkApplyStops(c, "R05j")
 	c.Rule("R05i", ruleTextTxOpenerRegistered, 2)
 	checkTxOpenerRegistered(c, "R05i")
 	c.Rule("R05h", ruleTextSqliteBegin, 1)
@@ -561,6 +563,10 @@ func runC01(c *Ctx) {
 	checkNormalizeArgs(c)
 	c.Rule("R01k", ruleTextFKActions, 4)
 	checkFKActionGuards(c, "R01k", []string{pSqlite, pMysql, pPostgres})
+	c.Rule("R01r", ruleTextScanOrder, 2)
+	checkScanOrder(c, "R01r")
+	c.Rule("R01s", ruleTextNoSelfCompare, 20)
+	checkNoSelfCompare(c, "R01s")
 	c.Rule("R01q", ruleTextColumnAttrCoverage, 2)
 	checkColumnAttrCoverage(c, "R01q")
 	c.Rule("R01n", ruleTextCheckWrap, 3)
